@@ -247,6 +247,7 @@ func run(p Prog) *prog.Result {
 	srv, err := fakeeth.New(chain, p.Head0)
 	if err != nil {
 		res.Discard = true
+		prog.Count("TestPropStreamLogs", "discard:listen-failed", 1)
 		return res
 	}
 	defer srv.Close()
@@ -267,6 +268,10 @@ func run(p Prog) *prog.Result {
 	)
 	if err != nil {
 		res.Discard = true
+		prog.Count("TestPropStreamLogs", "discard:dial-failed", 1)
+		if os.Getenv("VERIF_C13_DEBUG") != "" {
+			fmt.Fprintf(os.Stderr, "DIAL-FAILED %v\n", err)
+		}
 		return res
 	}
 	stream := ec.StreamLogs(ctx, p.Start)
@@ -282,9 +287,17 @@ func run(p Prog) *prog.Result {
 	}()
 
 	syncTimeouts := 0
-	ensureLive := func() bool { // false: the stream is over
+	// hung: the client did not come back with a subscription within resubWait. Besides a starved machine
+	// the known cause is a race inside go-ethereum's rpc.Client (a call whose send overlaps a connection
+	// teardown never returns; FilterLogs / SubscribeNewHead are called without deadline). Not judged.
+	hung := false
+	ensureLive := func() bool { // false: the stream is over or the client hangs
+		if hung {
+			return false
+		}
 		if !srv.WaitUntil(resubWait, func(st *fakeeth.State) bool { return o.closed || st.LiveSubs > 0 }) {
-			syncTimeouts++
+			hung = true
+			return false
 		}
 		var closed bool
 		srv.Locked(func(*fakeeth.State) { closed = o.closed })
@@ -292,7 +305,7 @@ func run(p Prog) *prog.Result {
 	}
 	waitResub := func(subs0 int) {
 		if !srv.WaitUntil(resubWait, func(st *fakeeth.State) bool { return o.closed || (st.SubscribeOK > subs0 && st.LiveSubs > 0) }) {
-			syncTimeouts++
+			hung = true
 		}
 	}
 
@@ -386,7 +399,7 @@ func run(p Prog) *prog.Result {
 		srv.Locked(func(*fakeeth.State) { reached = o.maxMetric >= want })
 		var closed bool
 		srv.Locked(func(*fakeeth.State) { closed = o.closed })
-		if !reached && !closed {
+		if !reached && !closed && !hung {
 			// The stream is stuck below lastHead-follow. Either the harness is starved (-> Discard) or the
 			// client's cursor is already past blocks it never delivered. Two more heads decide it: a
 			// delivered entry beyond the missing block is a skip whatever the timing was.
@@ -403,6 +416,10 @@ func run(p Prog) *prog.Result {
 		}
 	}
 
+	if os.Getenv("VERIF_C13_DEBUG") == "2" && due && !reached {
+		buf := make([]byte, 1<<20)
+		fmt.Fprintf(os.Stderr, "STUCK-STACKS\n%s\nEND-STACKS\n", buf[:runtime.Stack(buf, true)])
+	}
 	// ---- teardown: Close first (a cancelled context alone would leave reconnect() spinning).
 	var wasClosed, fatal bool
 	srv.Locked(func(*fakeeth.State) { wasClosed, fatal = o.closed, o.fatal })
@@ -412,6 +429,7 @@ func run(p Prog) *prog.Result {
 	case <-collected:
 	case <-time.After(teardownWait):
 		res.Discard = true
+		prog.Count("TestPropStreamLogs", "discard:teardown-timeout", 1)
 		classes["teardown-timeout"] = true
 		return res
 	}
@@ -446,6 +464,9 @@ func run(p Prog) *prog.Result {
 	}
 	if syncTimeouts > 0 {
 		classes["sync-timeout"] = true
+	}
+	if hung {
+		classes["client-hung"] = true
 	}
 	if !due {
 		classes["nothing-due"] = true
@@ -500,6 +521,11 @@ func run(p Prog) *prog.Result {
 	if due && !reached && !fatal {
 		// stuck without a demonstrable skip: not judged
 		res.Discard = true
+		if hung {
+			prog.Count("TestPropStreamLogs", "discard:client-hung", 1)
+		} else {
+			prog.Count("TestPropStreamLogs", "discard:stuck", 1)
+		}
 		classes["stuck"] = true
 	}
 	return res
